@@ -38,16 +38,53 @@ func verifErrCode(err error) int {
 	}
 }
 
-// verifSettle waits until the callback goroutines spawned so far have finished (the number of
-// goroutines is back to target). Bounded; reports false on timeout.
-func verifSettle(target int) bool {
-	deadline := time.Now().Add(3 * time.Second)
-	for i := 0; runtime.NumGoroutine() > target; i++ {
+// verifGuard bounds every wait of one case: a call or a condition that does not complete within
+// limit marks the case as hung (with what it was waiting for) and every later step is skipped,
+// so that a wheel or cache that got stuck costs seconds and is reported instead of killing the run.
+type verifGuard struct {
+	limit time.Duration
+	hung  string
+}
+
+func (g *verifGuard) ok() bool { return g.hung == "" }
+
+// run executes f (which may block on the wheel's channels) with a bound.
+func (g *verifGuard) run(what string, f func()) bool {
+	if g.hung != "" {
+		return false
+	}
+	done := make(chan any, 1)
+	go func() {
+		defer func() { done <- recover() }()
+		f()
+	}()
+	t := time.NewTimer(g.limit)
+	defer t.Stop()
+	select {
+	case p := <-done:
+		if p != nil {
+			panic(p)
+		}
+		return true
+	case <-t.C:
+		g.hung = what
+		return false
+	}
+}
+
+// wait polls cond with a bound.
+func (g *verifGuard) wait(what string, cond func() bool) bool {
+	if g.hung != "" {
+		return false
+	}
+	deadline := time.Now().Add(g.limit)
+	for i := 0; !cond(); i++ {
 		if i < 200 {
 			runtime.Gosched()
 			continue
 		}
 		if time.Now().After(deadline) {
+			g.hung = what
 			return false
 		}
 		time.Sleep(50 * time.Microsecond)
@@ -55,20 +92,28 @@ func verifSettle(target int) bool {
 	return true
 }
 
-// verifTickConsumed waits until the run loop has taken the tick out of the fake ticker's buffer.
-func verifTickConsumed(tk timex.FakeTicker) bool {
-	deadline := time.Now().Add(3 * time.Second)
-	for i := 0; len(tk.Chan()) > 0; i++ {
-		if i < 200 {
-			runtime.Gosched()
-			continue
-		}
-		if time.Now().After(deadline) {
-			return false
-		}
-		time.Sleep(20 * time.Microsecond)
+// verifHungCases counts the cases of this process that hung: the first few get the full bound,
+// later ones a short one, and after verifHungSkip of them the remaining cases are skipped
+// (reported as such), so that a tree on which everything hangs still answers within a minute.
+var verifHungCases int
+
+const (
+	verifHungFull = 3
+	verifHungSkip = 10
+)
+
+func verifNewGuard() *verifGuard {
+	if verifHungCases >= verifHungFull {
+		return &verifGuard{limit: 400 * time.Millisecond}
 	}
-	return true
+	return &verifGuard{limit: 4 * time.Second}
+}
+
+func verifSkip() (any, bool) {
+	if verifHungCases >= verifHungSkip {
+		return map[string]any{"skipped": true}, true
+	}
+	return nil, false
 }
 
 const verifBarrierKey = "\x00verif-barrier"
@@ -110,17 +155,18 @@ type verifEvent struct {
 // goroutine of runTasks / GoSafe) is attributed to the call during which its first callback
 // started; a drained pair to the latest Drain call. Nothing here knows what should happen.
 type verifGates struct {
-	mu        sync.Mutex
-	cur       int            // index of the call being processed
-	lastDrain int            // index of the latest Drain call
-	batch     map[uint64]int // goroutine id -> call of its first callback
-	fired     []verifEvent
-	drained   []verifEvent
-	armed     map[string]chan struct{} // hold: key -> gate not yet reached
-	holding   map[string]chan struct{} // gates a callback is blocked on
-	drainGate chan struct{}
-	blocked   int32 // callbacks currently blocked on a gate
-	pump      int32 // tick deliveries in flight (run loop busy inside drainAll)
+	mu           sync.Mutex
+	cur          int            // index of the call being processed
+	lastDrain    int            // index of the latest Drain call
+	batch        map[uint64]int // goroutine id -> call of its first callback
+	fired        []verifEvent
+	drained      []verifEvent
+	armed        map[string]chan struct{} // hold: key -> gate not yet reached
+	holding      map[string]chan struct{} // gates a callback is blocked on
+	drainGate    chan struct{}
+	blocked      int32 // callbacks currently blocked on a gate (taken off by the releaser)
+	drainWaiters int   // of which: drain function calls
+	pump         int32 // tick deliveries in flight (run loop busy inside drainAll)
 }
 
 func (g *verifGates) exec(k, v any) {
@@ -142,8 +188,7 @@ func (g *verifGates) exec(k, v any) {
 	}
 	g.mu.Unlock()
 	if gate != nil {
-		<-gate
-		atomic.AddInt32(&g.blocked, -1)
+		<-gate // the releaser has already taken this callback off the blocked count
 	}
 }
 
@@ -155,11 +200,11 @@ func (g *verifGates) drain(k, v any) {
 	gate := g.drainGate
 	if gate != nil {
 		atomic.AddInt32(&g.blocked, 1)
+		g.drainWaiters++
 	}
 	g.mu.Unlock()
 	if gate != nil {
 		<-gate
-		atomic.AddInt32(&g.blocked, -1)
 	}
 }
 
@@ -167,7 +212,10 @@ func (g *verifGates) release(key string) {
 	g.mu.Lock()
 	gate := g.holding[key]
 	delete(g.holding, key)
-	if gate == nil {
+	if gate != nil {
+		// from now on the callback counts as running: settling waits until its goroutine is done
+		atomic.AddInt32(&g.blocked, -1)
+	} else {
 		gate = g.armed[key]
 		delete(g.armed, key)
 	}
@@ -181,6 +229,8 @@ func (g *verifGates) releaseDrain() {
 	g.mu.Lock()
 	gate := g.drainGate
 	g.drainGate = nil
+	atomic.AddInt32(&g.blocked, -int32(g.drainWaiters))
+	g.drainWaiters = 0
 	g.mu.Unlock()
 	if gate != nil {
 		close(gate)
@@ -189,23 +239,6 @@ func (g *verifGates) releaseDrain() {
 
 func (g *verifGates) extra() int {
 	return int(atomic.LoadInt32(&g.blocked)) + int(atomic.LoadInt32(&g.pump))
-}
-
-// verifSettleGates: like verifSettle, with the callbacks blocked on gates (and tick deliveries
-// waiting for a busy run loop) allowed to stay.
-func verifSettleGates(base int, g *verifGates) bool {
-	deadline := time.Now().Add(3 * time.Second)
-	for i := 0; runtime.NumGoroutine() > base+g.extra(); i++ {
-		if i < 200 {
-			runtime.Gosched()
-			continue
-		}
-		if time.Now().After(deadline) {
-			return false
-		}
-		time.Sleep(50 * time.Microsecond)
-	}
-	return true
 }
 
 func verifWheel(raw json.RawMessage) any {
@@ -231,20 +264,25 @@ func verifWheel(raw json.RawMessage) any {
 	base := base0 + 1
 	stopped := false
 	drainHeld := false // Drain issued while the drain gate is armed: the run loop may be busy
-	timeouts := 0
+	gd := verifNewGuard()
 	// a further synchronous send: once it is accepted the loop has finished the previous handler
-	barrier := func() { _ = w.MoveTimer(verifBarrierKey, time.Duration(c.Interval)) }
+	barrier := func() {
+		gd.run("barrier: run loop does not accept a call", func() { _ = w.MoveTimer(verifBarrierKey, time.Duration(c.Interval)) })
+	}
+	consumed := func() {
+		gd.wait("tick not taken by the run loop", func() bool { return len(ticker.Chan()) == 0 })
+	}
+	settle := func(what string) {
+		gd.wait(what, func() bool { return runtime.NumGoroutine() <= base+g.extra() })
+	}
 	waitPump := func() {
-		deadline := time.Now().Add(3 * time.Second)
-		for atomic.LoadInt32(&g.pump) > 0 {
-			if time.Now().After(deadline) {
-				timeouts++
-				return
-			}
-			time.Sleep(20 * time.Microsecond)
-		}
+		gd.wait("ticks queued behind drainAll not delivered", func() bool { return atomic.LoadInt32(&g.pump) == 0 })
+	}
+	closed := func() { // the run loop closes the ticker when it exits
+		gd.run("run loop did not exit after Stop", func() { <-ticker.Chan() })
 	}
 	errs := make([]int, len(c.Calls))
+	done := 0
 	for idx, call := range c.Calls {
 		g.mu.Lock()
 		g.cur = idx
@@ -252,11 +290,15 @@ func verifWheel(raw json.RawMessage) any {
 		e := 0
 		switch call.Op {
 		case "set":
-			e = verifErrCode(w.SetTimer(verifKey(call.Key), call.Val, time.Duration(call.Delay)))
+			gd.run("SetTimer blocked", func() {
+				e = verifErrCode(w.SetTimer(verifKey(call.Key), call.Val, time.Duration(call.Delay)))
+			})
 		case "move":
-			e = verifErrCode(w.MoveTimer(verifKey(call.Key), time.Duration(call.Delay)))
+			gd.run("MoveTimer blocked", func() {
+				e = verifErrCode(w.MoveTimer(verifKey(call.Key), time.Duration(call.Delay)))
+			})
 		case "remove":
-			e = verifErrCode(w.RemoveTimer(verifKey(call.Key)))
+			gd.run("RemoveTimer blocked", func() { e = verifErrCode(w.RemoveTimer(verifKey(call.Key))) })
 		case "drain":
 			g.mu.Lock()
 			g.lastDrain = idx
@@ -264,7 +306,7 @@ func verifWheel(raw json.RawMessage) any {
 				drainHeld = true
 			}
 			g.mu.Unlock()
-			e = verifErrCode(w.Drain(g.drain))
+			gd.run("Drain blocked", func() { e = verifErrCode(w.Drain(g.drain)) })
 		case "tick":
 			if stopped { // a stopped ticker delivers nothing
 				break
@@ -276,16 +318,14 @@ func verifWheel(raw json.RawMessage) any {
 					atomic.AddInt32(&g.pump, -1)
 				}()
 			} else {
-				ticker.Tick()
-				if !verifTickConsumed(ticker) {
-					timeouts++
-				}
+				gd.run("Tick blocked: ticker buffer full", ticker.Tick)
+				consumed()
 			}
 		case "stop":
 			if panicked, _ := verifdrv.Catch(w.Stop); panicked {
 				e = 3
 			} else {
-				<-ticker.Chan() // closed by the run loop on exit
+				closed()
 				stopped = true
 				base = base0
 			}
@@ -307,8 +347,8 @@ func verifWheel(raw json.RawMessage) any {
 			g.releaseDrain()
 			if drainHeld {
 				waitPump()
-				if !stopped && !verifTickConsumed(ticker) {
-					timeouts++
+				if !stopped {
+					consumed()
 				}
 				drainHeld = false
 			}
@@ -317,9 +357,11 @@ func verifWheel(raw json.RawMessage) any {
 		if e == 0 && !drainHeld {
 			barrier()
 		}
-		if !verifSettleGates(base, g) {
-			timeouts++
+		settle("callbacks started by call " + call.Op + " did not finish")
+		if !gd.ok() {
+			break
 		}
+		done = idx + 1
 	}
 	// open every gate that is still closed and let everything finish
 	g.mu.Lock()
@@ -336,20 +378,23 @@ func verifWheel(raw json.RawMessage) any {
 		g.release(k)
 	}
 	g.releaseDrain()
+	hung := gd.hung
+	fin := &verifGuard{limit: gd.limit / 4}
+	gd = fin
 	waitPump()
-	if !stopped {
-		if !verifTickConsumed(ticker) {
-			timeouts++
-		}
+	if !stopped && hung == "" {
+		consumed()
 		barrier()
 	}
-	if !verifSettleGates(base, g) {
-		timeouts++
+	settle("callbacks still running at the end of the case")
+	if hung == "" {
+		hung = fin.hung
 	}
 	if !stopped {
 		w.Stop()
-		<-ticker.Chan()
-		verifSettle(base0)
+		fin.hung = ""
+		closed()
+		fin.wait("", func() bool { return runtime.NumGoroutine() <= base0+g.extra() })
 	}
 	obs := make([]verifWheelObs, len(c.Calls))
 	for i := range obs {
@@ -381,7 +426,10 @@ func verifWheel(raw json.RawMessage) any {
 			return d[a].V < d[b].V
 		})
 	}
-	return map[string]any{"new_ok": true, "obs": obs, "timeouts": timeouts, "late": late}
+	if hung != "" {
+		verifHungCases++
+	}
+	return map[string]any{"new_ok": true, "obs": obs[:done], "hung": hung, "late": late}
 }
 
 func TestVerifDriver(t *testing.T) {
@@ -390,6 +438,11 @@ func TestVerifDriver(t *testing.T) {
 			Kind string `json:"kind"`
 		}
 		_ = json.Unmarshal(raw, &head)
+		if head.Kind != "safemap" && head.Kind != "jitter" {
+			if res, skip := verifSkip(); skip {
+				return res
+			}
+		}
 		switch head.Kind {
 		case "cache":
 			return verifCache(raw)
